@@ -15,7 +15,7 @@ ASSUME = ["one outstanding wait per timer, no second connect while one is pendin
 
 def boundaries(bases, wd):
     """number of event boundaries of each base scenario, from the model (fallback: the implementation)"""
-    counts = {}
+    counts = {}; advs = {}
     f = os.path.join(wd, "bases.scn")
     with open(f, "w") as fh: fh.write("".join(bases))
     rc, out, err = vlib.run_cmd([vlib.simcheck_exe(), "kernel", f], timeout=300)
@@ -31,14 +31,16 @@ def boundaries(bases, wd):
             m = re.match(r"R top run => n=(\d+)", l)
             if m: n += int(m.group(1))
         counts[i] = min(n, 400)
-    return counts
+        # clock steps: at most one per `K idle` line (the last ones fire nothing)
+        advs[i] = min(sum(1 for l in lines if l.startswith("K idle")), 400)
+    return counts, advs
 
 def gen(seed, tier):
     vlib.build_lean()
     wd = vlib.workdir("C04gen")
     bases = intervene.base_scenarios(seed, tier)
-    counts = boundaries(bases, wd)
-    out = list(bases) + intervene.matrix(bases, counts, seed, tier)
+    counts, advs = boundaries(bases, wd)
+    out = list(bases) + intervene.matrix(bases, counts, seed, tier, advs)
     try:
         for fn in os.listdir(wd): os.unlink(os.path.join(wd, fn))
         os.rmdir(wd)
@@ -49,10 +51,10 @@ def spec_c04(impl, scn):
     return handlers.check(impl, scn)
 
 def nontrivial(impl):
-    return sum(1 for l in impl if l.startswith("H ")) >= 2 and any(re.match(r"C s\d+ ", l) for l in impl)
+    return sum(1 for l in impl if l.startswith("H ")) >= 2 and any(re.match(r"C [sa]\d+ ", l) for l in impl)
 
 CHECK = ScenarioCheck("C04", ["SimVerif.Props.C04"], "kernel", gen, spec_c04, nontrivial,
-    "base scenarios starting every kind of asynchronous operation (timer wait; TCP connect/read/write/wait-for-read; accept in its three forms; UDP receive / wait-for-read / wait-for-write; resolve) on lossy and loss-free routes; for every event boundary k of a base (all k in the thorough tier, a sample in the quick tier) one run per intervention (cancel, close, close() without argument, destroy, re-arm, a new operation of the same kind) on a participating object, to quiescence; non-trivial = >= 2 completions and an intervention executed; distinct = distinct implementation trace",
+    "base scenarios starting every kind of asynchronous operation (timer wait; TCP connect/read/write/wait-for-read; accept in its three forms; UDP receive / wait-for-read / wait-for-write; resolve) on lossy and loss-free routes; for every event boundary k of a base - after each handler, and after each clock step before the first expired timer's completion runs - (all k in the thorough tier, a sample in the quick tier) one run per intervention (cancel, close, close() without argument, destroy, re-arm, a new operation of the same kind) on a participating object, to quiescence; non-trivial = >= 2 completions and an intervention executed; distinct = distinct implementation trace",
     TRUSTED, ASSUME, spec_scn=True)
 
 def run(tier, seed, replay):
